@@ -17,3 +17,18 @@ void ambientInit();
 Ambient ambientGet(bool withLocale);
 Ambient ambientDefault();
 void ambientRestore(bool withLocale);
+
+// ---- ambient-source shims --------------------------------------------------
+// The library's (currently non-existent) calls to clocks, random sources, the
+// environment, sleeping and blocking locks are renamed to h3amb_* at link time
+// (vbuild.py), so that even a changed tree reads a *simulated* clock and a
+// seeded random source, never really sleeps, and cannot block the one running
+// task on a lock held by a parked task.  Calls are counted for the evidence.
+struct AmbientReads {
+    long clock = 0, random = 0, env = 0, sleep = 0, lock = 0, lockContended = 0;
+    long total() const { return clock + random + env + sleep + lock; }
+};
+void ambientResetPerRun();
+AmbientReads ambientReads();
+// set by the scheduler: give up the CPU because a lock is held by a parked task
+extern void (*ambientYieldHook)(void);
